@@ -67,6 +67,7 @@ import json
 import os
 import re
 import sys
+import time
 
 SYSCOLS = ['ctid', 'tableoid', 'xmin', 'xmax', 'cmin', 'cmax']
 RESERVED_NAMES = [None] + SYSCOLS + ['excluded']      # index = id
@@ -1346,9 +1347,9 @@ def det_install():
 
 
 def det_reset():
-    if _DET['on']:
-        _DET['h'].clear()
-        _DET['u'] = 0
+    """nothing to reset: in mode D every compilation runs in a fresh fork (run_line_forked), so the counters
+    start from the same values; hashes stay stable for an object's lifetime (hash/eq contract)"""
+    return
 
 
 class Worker:
@@ -1425,18 +1426,19 @@ class Worker:
         out['feat']['relstats'] = ab.relstats
         return term
 
-    def run_tree(self, sid, fmt, text):
+    def run_tree(self, sid, fmt, text, double=True):
         schema, catalog = self.schema(sid)
         res, sql, ir, params = self.compile_tree(schema, text, fmt)
         rows = self.argmap_rows(res.argmap, params)
         out = {'st': 'ok', 'mon': [], 'sql': sql}
         # determinism in-process
-        res2, sql2, ir2, params2 = self.compile_tree(schema, text, fmt)
-        rows2 = self.argmap_rows(res2.argmap, params2)
-        if sql != sql2 or rows != rows2:
-            out['mon'].append('nondet-inprocess')
-            out['sql2'] = sql2
-            out['argmap2'] = rows2
+        if double:
+            res2, sql2, ir2, params2 = self.compile_tree(schema, text, fmt)
+            rows2 = self.argmap_rows(res2.argmap, params2)
+            if sql != sql2 or rows != rows2:
+                out['mon'].append('nondet-inprocess')
+                out['sql2'] = sql2
+                out['argmap2'] = rows2
         self.observe(out, res.ast, rows, sql, catalog)
         out['sqllen'] = len(sql)
         out['digest'] = hashlib.sha256(json.dumps([sql, rows]).encode()).hexdigest()[:24]
@@ -1510,17 +1512,18 @@ class Worker:
             'cardinality': str(u.cardinality), 'capabilities': int(u.capabilities),
         }
 
-    def run_server(self, sid, text):
+    def run_server(self, sid, text, double=True):
         schema, catalog = self.schema(sid)
         out = {'st': 'ok', 'mon': []}
         units, captured = self.compile_server(schema, text)
         o = [self.unit_obs(u) for u in units]
-        units2, captured2 = self.compile_server(schema, text)
-        o2 = [self.unit_obs(u) for u in units2]
-        if o != o2:
-            out['mon'].append('nondet-inprocess')
-            out['sql2'] = '\n;\n'.join(u['sql'] for u in o2)
-            out['desc_differs'] = [k for a, b in zip(o, o2) for k in a if k != 'sql' and a[k] != b.get(k)]
+        if double:
+            units2, captured2 = self.compile_server(schema, text)
+            o2 = [self.unit_obs(u) for u in units2]
+            if o != o2:
+                out['mon'].append('nondet-inprocess')
+                out['sql2'] = '\n;\n'.join(u['sql'] for u in o2)
+                out['desc_differs'] = [k for a, b in zip(o, o2) for k in a if k != 'sql' and a[k] != b.get(k)]
         out['units'] = len(o)
         out['sql'] = '\n;\n'.join(u['sql'] for u in o)
         out['desc'] = [{k: v for k, v in u.items() if k != 'sql'} for u in o]
@@ -1562,7 +1565,75 @@ class Worker:
         out['sqllen'] = sum(len(u['sql']) for u in o)
         return out
 
-    def run_line(self, line):
+    def run_line_forked(self, line):
+        """mode D: each of the two compilations runs in its own fork of this process, which has loaded the
+        schemas but never compiled anything: both start from the same interpreter state (no history)"""
+        import select
+        parts = line.split(' ')
+        if len(parts) != 4 or parts[0] != 'Q' or parts[1] not in self.spec['schemas']:
+            return {'st': 'bad-line'}
+        self.schema(parts[1])
+        if parts[2] == 's':
+            self.server_compiler()
+        limit = float(os.environ.get('C13_CASE_TIMEOUT', '90'))
+        outs = []
+        for k in range(2):
+            rfd, wfd = os.pipe()
+            sys.stdout.flush()
+            pid = os.fork()
+            if pid == 0:
+                try:
+                    os.close(rfd)
+                    res = self.run_line(line, double=False)
+                    data = json.dumps(res).encode()
+                    off = 0
+                    while off < len(data):
+                        off += os.write(wfd, data[off:off + 65536])
+                finally:
+                    os._exit(0)
+            os.close(wfd)
+            buf = b''
+            t_end = time.time() + limit
+            timed_out = False
+            while True:
+                left = t_end - time.time()
+                if left <= 0:
+                    timed_out = True
+                    break
+                r, _, _ = select.select([rfd], [], [], left)
+                if not r:
+                    timed_out = True
+                    break
+                chunk = os.read(rfd, 1 << 16)
+                if not chunk:
+                    break
+                buf += chunk
+            os.close(rfd)
+            if timed_out:
+                try:
+                    os.kill(pid, 9)
+                except OSError:
+                    pass
+                os.waitpid(pid, 0)
+                # the lexer subprocess may be in the middle of a request of the killed child: give up this worker
+                print(json.dumps({'st': 'timeout', 'err': f'no answer within {limit:.0f}s (mode D)'}), flush=True)
+                os._exit(3)
+            os.waitpid(pid, 0)
+            try:
+                outs.append(json.loads(buf.decode()))
+            except ValueError:
+                return {'st': 'crash', 'err': 'forked compilation died'}
+        a, b = outs
+        if a.get('st') == 'ok' and (b.get('st') != 'ok' or a.get('sql') != b.get('sql')
+                                    or a.get('argmap') != b.get('argmap') or a.get('desc') != b.get('desc')):
+            a.setdefault('mon', []).append('nondet-inprocess')
+            a['sql2'] = b.get('sql')
+            a['argmap2'] = b.get('argmap')
+            if a.get('desc') != b.get('desc'):
+                a['desc_differs'] = ['desc']
+        return a
+
+    def run_line(self, line, double=True):
         parts = line.split(' ')
         if len(parts) != 4 or parts[0] != 'Q':
             return {'st': 'bad-line'}
@@ -1574,9 +1645,9 @@ class Worker:
         errors = self.rt['errors']
         try:
             if mode in ('n', 'j'):
-                return self.run_tree(sid, mode, text)
+                return self.run_tree(sid, mode, text, double)
             elif mode == 's':
-                return self.run_server(sid, text)
+                return self.run_server(sid, text, double)
             return {'st': 'bad-line'}
         except errors.InternalServerError as e:
             return {'st': 'crash', 'err': f'{type(e).__name__}: {str(e)[:300]}'}
@@ -1615,7 +1686,10 @@ def child_main(repo, specpath):
         if not line:
             print(json.dumps({'st': 'bad-line'}), flush=True)
             continue
-        print(json.dumps(w.run_line(line)), flush=True)
+        if _DET['on']:
+            print(json.dumps(w.run_line_forked(line)), flush=True)
+        else:
+            print(json.dumps(w.run_line(line)), flush=True)
 
 
 def supervise(repo, specpath):
@@ -1632,17 +1706,27 @@ def supervise(repo, specpath):
                                 stdin=subprocess.PIPE, stdout=subprocess.PIPE, text=True, bufsize=1)
     for line in sys.stdin:
         line = line.rstrip('\n')
-        if child is None:
-            child = spawn()
-            fresh = True
-        try:
-            child.stdin.write(line + '\n')
-            child.stdin.flush()
-            r, _, _ = select.select([child.stdout], [], [], limit + (240 if fresh else 0))
-            out = child.stdout.readline() if r else None
-        except (BrokenPipeError, OSError):
-            out = ''
-        fresh = False
+        out = None
+        for attempt in (0, 1):
+            if child is None:
+                child = spawn()
+                fresh = True
+            was_fresh = fresh
+            try:
+                child.stdin.write(line + '\n')
+                child.stdin.flush()
+                r, _, _ = select.select([child.stdout], [], [], limit + (240 if fresh else 0))
+                out = child.stdout.readline() if r else None
+            except (BrokenPipeError, OSError):
+                out = ''
+            fresh = False
+            if out == '' and not was_fresh and attempt == 0:
+                # the worker had exited before this case (e.g. after a timeout in mode D): retry on a fresh one
+                child.kill()
+                child.wait()
+                child = None
+                continue
+            break
         if out is None:
             child.kill()
             child.wait()
